@@ -89,7 +89,11 @@ func Normalize(dict map[string]any, env types.Mapping) (map[string]any, error) {
 
 			for _, namespace := range []string{"network_mode", "ipc", "pid", "uts", "cgroup"} {
 				if n, ok := service[namespace]; ok {
-					ref := n.(string)
+					ref, ok := n.(string)
+					if !ok {
+						// null (allowed by the schema for pid) or not a string: no service reference
+						continue
+					}
 					if strings.HasPrefix(ref, types.ServicePrefix) {
 						shared := ref[len(types.ServicePrefix):]
 						if _, ok := dependsOn[shared]; !ok {
